@@ -326,6 +326,11 @@ def main(chk):
     c03 = importlib.util.module_from_spec(spec3)
     spec3.loader.exec_module(c03)
     c03.rule_regroup(chk)
+    # a group that asks for a neighbour update gets the same refresh (domain, then binning) whichever way it is nested (rule shared with C03)
+    from verif_static import makotree as MT3
+    c03.rule_top(chk, MT3.parse_template(c03.TPL))
+    # the binning cell size covers every array, re-read at every update (rule shared with C01)
+    c01.rule_cell_size(chk)
     # informational: classes not selectable from the command line
     for cname, (rel, cls) in sorted(classes.items()):
         if cname in selectable or cname in ('NNPS', 'NNPSBase') or not cname.endswith('NNPS'):
